@@ -154,16 +154,18 @@ func jsonAddKeyElements(s Entry, dict map[string]any) {
 	// values are the tree level names
 	parentSchema, levelsUp := s.GetFirstAncestorWithSchema()
 	// from the parent we get the keys as slice
-	schemaKeys := parentSchema.GetSchemaKeys()
+	// the key levels of the tree are in the order of the sorted key names
+	sortedKeys := slices.Clone(parentSchema.GetSchemaKeys())
+	slices.Sort(sortedKeys)
 	var treeElem Entry = s
 	// the keys do match the levels up in the tree in reverse order
 	// hence we init i with levelUp and count down
-	for i := levelsUp - 1; i >= 0; i-- {
+	for i := levelsUp - 1; i >= 0 && i < len(sortedKeys); i-- {
 		// skip if the element already exists
-		if _, exists := dict[schemaKeys[i]]; !exists {
+		if _, exists := dict[sortedKeys[i]]; !exists {
 			// and finally we create the patheleme key attributes
-			dict[schemaKeys[i]] = treeElem.PathName()
-			treeElem = treeElem.GetParent()
+			dict[sortedKeys[i]] = treeElem.PathName()
 		}
+		treeElem = treeElem.GetParent()
 	}
 }
